@@ -357,6 +357,16 @@ struct DenseModel {
     if constexpr (SwapVec) {
       if (op == "swap_rows" && static_cast<unsigned>(std::max(geti(act, "a"), geti(act, "b"))) >= rowbound) return true;
     }
+    if constexpr (CT == Column_types::VECTOR && !Comp) {
+      //  - VECTOR columns: addition of a source column that still stores lazily erased entries
+      if (op == "add" || op == "mta") {
+        auto& src = m().get_column(static_cast<unsigned>(geti(act, "s")));
+        std::size_t stored = 0, nnz = 0;
+        for (const Entry& e : src) { (void)e; ++stored; }
+        for (auto x : src.get_content(dg().NR)) if (x != 0) ++nnz;
+        if (stored != nnz) return true;
+      }
+    }
     return false;
   }
 
